@@ -108,6 +108,37 @@ impl Property for C05 {
         Ok(())
     }
     fn extra(&self, tier: Tier, seed: u64, st: &mut Stats) -> Result<(), (Failure, Value)> {
+        // small-scope exhaustive part: every document with up to 4 (thorough: 5) elements over colliding child names,
+        // parsed and rendered 4 times each (both sort orders alternate)
+        {
+            let max_nodes = match tier {
+                Tier::Quick => 4,
+                Tier::Thorough => 5,
+            };
+            let docs = super::smallscope::documents_over(max_nodes, super::c04::SMALL_NAMES);
+            let (evals, nts, fail) = super::smallscope::run_tuples_over(docs, 1, |_d, bytes| {
+                let mut first: Option<String> = None;
+                for _ in 0..4 {
+                    let root = crate::sut::parse_seq(bytes).map_err(|(i, e)| format!("document #{} rejected: {}", i + 1, e))?;
+                    let out = format!("{}\n====\n{}", root.to_serde_struct(&crate::sut::opts_quick(false, "D")), root.to_serde_struct(&crate::sut::opts_quick(true, "D")));
+                    match &first {
+                        None => first = Some(out),
+                        Some(f) => {
+                            if *f != out {
+                                return Err(format!("two runs over the same document produced different bytes: {}", first_diff(f, &out)));
+                            }
+                        }
+                    }
+                }
+                Ok(true)
+            });
+            st.evaluations += evals;
+            st.nontrivial_enumerated += nts;
+            st.add("exhaustive.documents_over_colliding_names", evals);
+            if let Some((e, docs)) = fail {
+                return Err((Failure::new(format!("small-scope exhaustive search: {}", e)).with_detail(json!({"documents": docs})), json!({"small_scope_documents": docs})));
+            }
+        }
         // across processes: P fresh processes of this binary render the same tapes
         let (n, procs) = match tier {
             Tier::Quick => (200, 4),
@@ -175,6 +206,23 @@ impl Property for C05 {
         }
     }
     fn replay_custom(&self, payload: &Value) -> Result<(), Failure> {
+        if let Some(a) = payload["small_scope_documents"].as_array() {
+            let docs: Vec<Vec<u8>> = a.iter().map(|d| d.as_str().unwrap_or("").as_bytes().to_vec()).collect();
+            let mut first: Option<String> = None;
+            for _ in 0..40 {
+                let root = crate::sut::parse_seq(&docs).map_err(|(i, e)| Failure::new(format!("document #{} rejected: {}", i + 1, e)))?;
+                let out = format!("{}\n====\n{}", root.to_serde_struct(&crate::sut::opts_quick(false, "D")), root.to_serde_struct(&crate::sut::opts_quick(true, "D")));
+                match &first {
+                    None => first = Some(out),
+                    Some(f) => {
+                        if *f != out {
+                            return Err(Failure::new(format!("two runs over the same document produced different bytes: {}", first_diff(f, &out))));
+                        }
+                    }
+                }
+            }
+            return Ok(());
+        }
         // process-level replay: re-run the in-process repetitions on the saved tapes
         let tapes = Tapes {
             a: crate::runner::unhex(payload["a"].as_str().unwrap_or("")),
@@ -189,7 +237,7 @@ impl Property for C05 {
         Ok(())
     }
     fn rule(&self) -> String {
-        "tape-decoded document sequences over pools weighted towards identifier-colliding names (case/separator variants, keywords), arbitrary options; the bytes of parse+extend+render are compared across 8 (quick) / 16 (thorough) in-process repetitions (each HashMap instance draws fresh hash keys), across 4 threads for one case in eight, and across 4/8 fresh processes for 200/5000 cases. Non-trivial = some struct has two fields whose names collide after normalisation, or some position with two or more occurrences has two or more optional children (several demotions at one position); distinct by hash of the structural documents.".into()
+        "small-scope exhaustive: every document with up to 4 (thorough: 5) elements over the child names a, b, ab, A, type, rendered 4 times under both sort orders; sampled: tape-decoded document sequences over pools weighted towards identifier-colliding names (case/separator variants, keywords), arbitrary options; the bytes of parse+extend+render are compared across 8 (quick) / 16 (thorough) in-process repetitions (each HashMap instance draws fresh hash keys), across 4 threads for one case in eight, and across 4/8 fresh processes for 200/5000 cases. Non-trivial = some struct has two fields whose names collide after normalisation, or some position with two or more occurrences has two or more optional children (several demotions at one position); distinct by hash of the structural documents.".into()
     }
     fn assumptions(&self) -> Vec<String> {
         vec![
@@ -199,6 +247,9 @@ impl Property for C05 {
     }
     fn describe(&self, tapes: &Tapes) -> Value {
         json!({"case": describe_case(&prepare(tapes, &domain(), &SurfaceCfg::full())), "options": options_of(tapes).json()})
+    }
+    fn exhaustive(&self) -> bool {
+        true
     }
     fn health(&self, _tier: Tier) -> Vec<(&'static str, u64)> {
         vec![("nontrivial", 3000), ("both", 500), ("process_runs_compared", 400)]
